@@ -255,7 +255,9 @@ def prefix_stream(ctx):
         sp, bits = (ao.split() + ["", ""])[:2]
         skip = sp == "SKIP"
         sound = b"" if sp in ("-", "", "SKIP") else bytes.fromhex(sp)
-        ctx.evaluations += 1
+        # the evaluated case of this stream is a (regex, name) pair: each one is run through Go's regexp and the
+        # abstraction, and distinct_nontrivial counts the matching pairs, so evaluations counts pairs as well
+        ctx.evaluations += max(1, len(names))
         if not skip and not sound.startswith(pfx):
             nle += 1
             if nle <= 2:
